@@ -18,11 +18,24 @@ pub struct Case7 {
     pub subsets: Vec<u16>,
     /// random cursor walk: (op, arg)
     pub walk: Vec<(u8, u16)>,
+    /// fork (worldline pick, tick pick) of the live world after the script; the child is
+    /// registered with the runtime and continues with `after`
+    #[serde(default)]
+    pub fork: Option<(u8, u16)>,
+    /// steps after the fork; `true` redirects a submission to the forked child
+    #[serde(default)]
+    pub after: Vec<(bool, Step)>,
 }
 
 fn case7() -> impl Strategy<Value = Case7> {
-    (hist_case(2, 2, 44), prop::collection::vec(any::<u16>(), 6), prop::collection::vec((0u8..6, any::<u16>()), 4..24))
-        .prop_map(|(hist, subsets, walk)| Case7 { hist, subsets, walk })
+    (
+        hist_case(2, 2, 44),
+        prop::collection::vec(any::<u16>(), 6),
+        prop::collection::vec((0u8..6, any::<u16>()), 4..24),
+        prop::option::weighted(0.7, (any::<u8>(), any::<u16>())),
+        prop::collection::vec((any::<bool>(), step_seed()), 0..24),
+    )
+        .prop_map(|(hist, subsets, walk, fork, after)| Case7 { hist, subsets, walk, fork, after })
 }
 
 /// Equality of two materialised worldline states "as replay results".
@@ -53,163 +66,213 @@ fn cursor(wl: u8, init: &WorldlineState, pin: u64) -> PlaybackCursor {
     PlaybackCursor::new(CursorId([9; 32]), wl_id(wl), warp_id(0), CursorRole::Reader, init, wt(pin))
 }
 
-/// A checkpoint-free copy of the service (rebuilt from entries).
-fn strip_checkpoints(w: &World) -> Result<ProvenanceService, Fail> {
-    let mut p = ProvenanceService::new();
-    for wl in 0..w.n_wl() as u8 {
-        p.register_worldline(wl_id(wl), &w.initial[wl as usize]).map_err(|e| Fail::new("C07/harness/register", format!("{e:?}")))?;
-        for t in 0..w.len(wl) {
-            let e = w.provenance.entry(wl_id(wl), wt(t)).map_err(|e| Fail::new("C07/harness/entry", format!("{e:?}")))?;
-            p.append_local_commit(e).map_err(|e| Fail::new("C05/append-refuses-own-history", format!("re-appending the recorded entry {t} of worldline {wl} is refused: {e:?}")))?;
+struct Tally {
+    evals: u64,
+    nontrivial: bool,
+}
+
+/// All replay-path checks for one worldline of `w`. `base` is the checkpoint-free rebuild.
+fn check_worldline(ctx: &Ctx, c: &Case7, w: &World, base: &ProvenanceService, wl: u8, exhaustive_ok: bool, probe: &mut Probe, tally: &mut Tally) -> Check {
+    let len = w.len(wl);
+    let init = &w.initial[wl as usize];
+    let id = wl_id(wl);
+    vensure_eq!(len as usize, w.ledger[wl as usize].len(), "C07/harness/ledger-length", "worldline {wl}");
+    // ground truth: live ledger + fold of patches from U0
+    let mut truth: Vec<WorldlineState> = Vec::new();
+    let mut fold = init.clone();
+    for t in 0..=len {
+        let r = base.replay_worldline_state_at(id, init, wt(t)).map_err(|e| Fail::new("C07/replay-error", format!("worldline {wl} tick {t}: {e:?}")))?;
+        let expect_fp = if t == 0 { Some(state_fp(init)) } else { w.ledger[wl as usize][t as usize - 1].fp.clone() };
+        if let Some(expect_fp) = expect_fp {
+            if state_fp(&r) != expect_fp {
+                vfail!("C07/replay-differs-from-live-state", "worldline {wl} tick {t}: replayed {:?}, live runtime held {:?}", state_fp(&r), expect_fp);
+            }
+            probe.class("live-content-compared");
+        }
+        if t > 0 {
+            let lt = &w.ledger[wl as usize][t as usize - 1];
+            let snap = r.last_snapshot().ok_or_else(|| Fail::new("C07/replay-metadata", "no last snapshot"))?;
+            vensure!(snap.hash == lt.commit_hash && snap.patch_digest == lt.patch_digest && snap.state_root == lt.state_root, "C07/replay-hashes-differ-from-live", "worldline {wl} tick {t}: commit {} vs {}, patch digest {} vs {}, root {} vs {}", hex8(&snap.hash), hex8(&lt.commit_hash), hex8(&snap.patch_digest), hex8(&lt.patch_digest), hex8(&snap.state_root), hex8(&lt.state_root));
+            let e = base.entry(id, wt(t - 1)).map_err(|e| Fail::new("C07/harness/entry", format!("{e:?}")))?;
+            e.patch.as_ref().ok_or_else(|| Fail::new("C07/harness", "entry without patch"))?.apply_to_worldline_state(&mut fold).map_err(|e| Fail::new("C07/fold-apply-error", format!("tick {t}: {e:?}")))?;
+            if state_fp(&fold) != state_fp(&r) {
+                vfail!("C07/replay-differs-from-fold", "worldline {wl} tick {t}");
+            }
+        }
+        truth.push(r);
+        tally.evals += 1;
+    }
+    // the live service (with whatever checkpoints the script and forks left in it) replays
+    // every tick to the same state, by service replay, fresh cursor, and backward seek
+    for t in 0..=len {
+        let r = w.provenance.replay_worldline_state_at(id, init, wt(t)).map_err(|e| Fail::new("C07/live-replay-error", format!("worldline {wl} tick {t} on the live service (checkpoints {:?}): {e:?}", w.checkpoints[wl as usize])))?;
+        if let Err(m) = same_replay_state(&r, &truth[t as usize]) {
+            vfail!("C07/live-replay-depends-on-retained-checkpoints", "worldline {wl} tick {t} (checkpoints {:?}): {m}", w.checkpoints[wl as usize]);
+        }
+        let mut cur = cursor(wl, init, len);
+        cur.seek_to(wt(t), &w.provenance, init).map_err(|e| Fail::new("C07/live-seek-error", format!("worldline {wl} fresh seek {t}: {e:?}")))?;
+        if let Err(m) = same_replay_state(cur.materialized_state(), &truth[t as usize]) {
+            vfail!("C07/live-seek-path-dependence", "worldline {wl} fresh seek {t}: {m}");
+        }
+        let mut cur = cursor(wl, init, len);
+        cur.seek_to(wt(len), &w.provenance, init).map_err(|e| Fail::new("C07/live-seek-error", format!("worldline {wl} seek {len}: {e:?}")))?;
+        cur.seek_to(wt(t), &w.provenance, init).map_err(|e| Fail::new("C07/live-seek-error", format!("worldline {wl} seek {len}->{t}: {e:?}")))?;
+        if let Err(m) = same_replay_state(cur.materialized_state(), &truth[t as usize]) {
+            vfail!("C07/live-seek-path-dependence", "worldline {wl} seek {len}->{t}: {m}");
+        }
+        tally.evals += 3;
+    }
+    if len == 0 {
+        return Ok(());
+    }
+    // checkpoint subsets
+    let n_ticks = (len + 1) as u32;
+    let exhaustive_limit = if exhaustive_ok { ctx.tier.pick(5u64, 7u64) } else { 0 };
+    let masks: Vec<u32> = if len + 1 <= exhaustive_limit { (0..(1u32 << n_ticks)).collect() } else { c.subsets.iter().map(|m| (*m as u32) & ((1u32 << n_ticks.min(16)) - 1)).collect() };
+    if len + 1 <= exhaustive_limit {
+        probe.class(format!("subsets-exhaustive:len={len}"));
+    } else {
+        probe.class("subsets-sampled");
+    }
+    for mask in masks {
+        let mut p = base.clone();
+        for t in 0..=len.min(15) {
+            if mask & (1 << t) != 0 {
+                p.add_checkpoint(id, ReplayCheckpoint::from_state(&truth[t as usize]))
+                    .map_err(|e| Fail::new("C07/checkpoint-of-replayed-state-refused", format!("worldline {wl} tick {t}: {e:?}")))?;
+            }
+        }
+        for target in 0..=len {
+            // service-level replay
+            let r = p.replay_worldline_state_at(id, init, wt(target)).map_err(|e| Fail::new("C07/replay-error", format!("K={mask:#b} target {target}: {e:?}")))?;
+            if let Err(m) = same_replay_state(&r, &truth[target as usize]) {
+                vfail!("C07/replay-depends-on-checkpoints", "worldline {wl} K={mask:#b} target {target}: {m}");
+            }
+            for start in 0..=len {
+                let mut cur = cursor(wl, init, len);
+                cur.seek_to(wt(start), &p, init).map_err(|e| Fail::new("C07/seek-error", format!("K={mask:#b} seek {start}: {e:?}")))?;
+                cur.seek_to(wt(target), &p, init).map_err(|e| Fail::new("C07/seek-error", format!("K={mask:#b} seek {start}->{target}: {e:?}")))?;
+                vensure_eq!(cur.current_tick(), wt(target), "C07/cursor-tick", "seek {start}->{target}");
+                if let Err(m) = same_replay_state(cur.materialized_state(), &truth[target as usize]) {
+                    vfail!("C07/seek-path-dependence", "worldline {wl} K={mask:#b} seek {start}->{target}: {m}");
+                }
+                vensure_eq!(cur.current_state_root(), truth[target as usize].state_root(), "C07/cursor-root", "seek {start}->{target}");
+                tally.evals += 1;
+                // a checkpoint strictly between cursor position and target
+                if (start + 1..target).any(|k| mask & (1 << k) != 0) || target < start {
+                    tally.nontrivial = true;
+                }
+            }
         }
     }
-    Ok(p)
+    // random cursor walk interleaved with checkpoint insertion
+    {
+        let mut p = base.clone();
+        let mut cur = cursor(wl, init, len);
+        for (op, arg) in &c.walk {
+            let pos = cur.current_tick().as_u64();
+            let t = vkit::pick_idx(*arg, (len + 1) as usize) as u64;
+            let expect = match op {
+                0 => {
+                    cur.seek_to(wt(t), &p, init).map_err(|e| Fail::new("C07/seek-error", format!("walk seek {t}: {e:?}")))?;
+                    t
+                }
+                1 => {
+                    cur.mode = PlaybackMode::StepForward;
+                    cur.step(&p, init).map_err(|e| Fail::new("C07/step-error", format!("{e:?}")))?;
+                    (pos + 1).min(len)
+                }
+                2 => {
+                    cur.mode = PlaybackMode::StepBack;
+                    cur.step(&p, init).map_err(|e| Fail::new("C07/step-error", format!("{e:?}")))?;
+                    pos.saturating_sub(1)
+                }
+                3 => {
+                    cur.mode = PlaybackMode::Seek { target: wt(t), then: SeekThen::Pause };
+                    cur.step(&p, init).map_err(|e| Fail::new("C07/step-error", format!("{e:?}")))?;
+                    t
+                }
+                4 => {
+                    cur.mode = PlaybackMode::Play;
+                    cur.step(&p, init).map_err(|e| Fail::new("C07/step-error", format!("{e:?}")))?;
+                    (pos + 1).min(len)
+                }
+                _ => {
+                    p.add_checkpoint(id, ReplayCheckpoint::from_state(&truth[t as usize])).map_err(|e| Fail::new("C07/checkpoint-of-replayed-state-refused", format!("{e:?}")))?;
+                    pos
+                }
+            };
+            vensure_eq!(cur.current_tick().as_u64(), expect, "C07/cursor-tick", "walk op {op} from {pos}");
+            if let Err(m) = same_replay_state(cur.materialized_state(), &truth[expect as usize]) {
+                vfail!("C07/walk-path-dependence", "worldline {wl} after op {op} (arg tick {t}) from {pos}: {m}");
+            }
+            tally.evals += 1;
+        }
+    }
+    // forks at every tick: prefix agrees with the parent, copied checkpoints included
+    for fork_tick in 0..len {
+        let mut p = w.provenance.clone(); // with the script's own checkpoints
+        let child = wl_id(7);
+        p.fork(id, wt(fork_tick), child).map_err(|e| Fail::new("C07/fork-error", format!("fork at {fork_tick}: {e:?}")))?;
+        vensure_eq!(p.len(child).unwrap_or(0), fork_tick + 1, "C07/fork-length", "fork at {fork_tick}");
+        for t in 0..=fork_tick + 1 {
+            let r = p.replay_worldline_state_at(child, init, wt(t)).map_err(|e| Fail::new("C07/fork-replay-error", format!("fork at {fork_tick} tick {t}: {e:?}")))?;
+            if state_fp(&r) != state_fp(&truth[t as usize]) {
+                vfail!("C07/fork-prefix-differs", "fork at {fork_tick}: child tick {t} differs from the parent's");
+            }
+            let mut cur = PlaybackCursor::new(CursorId([8; 32]), child, warp_id(0), CursorRole::Reader, init, wt(fork_tick + 1));
+            cur.seek_to(wt(t), &p, init).map_err(|e| Fail::new("C07/fork-seek-error", format!("{e:?}")))?;
+            vensure!(state_fp(cur.materialized_state()) == state_fp(&truth[t as usize]), "C07/fork-prefix-differs", "cursor on fork at {fork_tick} tick {t}");
+            tally.evals += 1;
+        }
+        vensure!(p.replay_worldline_state_at(child, init, wt(fork_tick + 2)).is_err(), "C07/fork-has-extra-history", "fork at {fork_tick}");
+        // no checkpoint beyond the copied prefix may travel with the fork
+        if let Some(cp) = p.checkpoint_before(child, wt(u64::MAX)) {
+            vensure!(cp.worldline_tick.as_u64() <= fork_tick + 1, "C07/fork-inherits-checkpoint-beyond-prefix", "fork at {fork_tick} carries a checkpoint at tick {}", cp.worldline_tick.as_u64());
+        }
+    }
+    probe.class(format!("len:{}", len.min(9)));
+    Ok(())
 }
 
 fn check7(ctx: &Ctx, c: &Case7, probe: &mut Probe) -> Check {
-    let (w, _tags) = run(&c.hist, true);
+    let (mut w, _tags) = run(&c.hist, true);
     let base = strip_checkpoints(&w)?;
-    let mut evals = 0u64;
-    let mut nontrivial = false;
+    let mut tally = Tally { evals: 0, nontrivial: false };
     for wl in 0..w.n_wl() as u8 {
-        let len = w.len(wl);
-        let init = &w.initial[wl as usize];
-        let id = wl_id(wl);
-        vensure_eq!(len as usize, w.ledger[wl as usize].len(), "C07/harness/ledger-length", "worldline {wl}");
-        // ground truth: live ledger + fold of patches from U0
-        let mut truth: Vec<WorldlineState> = Vec::new();
-        let mut fold = init.clone();
-        for t in 0..=len {
-            let r = base.replay_worldline_state_at(id, init, wt(t)).map_err(|e| Fail::new("C07/replay-error", format!("worldline {wl} tick {t}: {e:?}")))?;
-            let expect_fp = if t == 0 { Some(state_fp(init)) } else { w.ledger[wl as usize][t as usize - 1].fp.clone() };
-            if let Some(expect_fp) = expect_fp {
-                if state_fp(&r) != expect_fp {
-                    vfail!("C07/replay-differs-from-live-state", "worldline {wl} tick {t}: replayed {:?}, live runtime held {:?}", state_fp(&r), expect_fp);
-                }
-                probe.class("live-content-compared");
-            }
-            if t > 0 {
-                let lt = &w.ledger[wl as usize][t as usize - 1];
-                let snap = r.last_snapshot().ok_or_else(|| Fail::new("C07/replay-metadata", "no last snapshot"))?;
-                vensure!(snap.hash == lt.commit_hash && snap.patch_digest == lt.patch_digest && snap.state_root == lt.state_root, "C07/replay-hashes-differ-from-live", "worldline {wl} tick {t}: commit {} vs {}, patch digest {} vs {}, root {} vs {}", hex8(&snap.hash), hex8(&lt.commit_hash), hex8(&snap.patch_digest), hex8(&lt.patch_digest), hex8(&snap.state_root), hex8(&lt.state_root));
-                let e = base.entry(id, wt(t - 1)).map_err(|e| Fail::new("C07/harness/entry", format!("{e:?}")))?;
-                e.patch.as_ref().ok_or_else(|| Fail::new("C07/harness", "entry without patch"))?.apply_to_worldline_state(&mut fold).map_err(|e| Fail::new("C07/fold-apply-error", format!("tick {t}: {e:?}")))?;
-                if state_fp(&fold) != state_fp(&r) {
-                    vfail!("C07/replay-differs-from-fold", "worldline {wl} tick {t}");
-                }
-            }
-            truth.push(r);
-            evals += 1;
-        }
-        if len == 0 {
-            continue;
-        }
-        // checkpoint subsets
-        let n_ticks = (len + 1) as u32;
-        let exhaustive_limit = ctx.tier.pick(5u64, 7u64);
-        let masks: Vec<u32> = if len + 1 <= exhaustive_limit { (0..(1u32 << n_ticks)).collect() } else { c.subsets.iter().map(|m| (*m as u32) & ((1u32 << n_ticks.min(16)) - 1)).collect() };
-        if len + 1 <= exhaustive_limit {
-            probe.class(format!("subsets-exhaustive:len={len}"));
-        } else {
-            probe.class("subsets-sampled");
-        }
-        for mask in masks {
-            let mut p = base.clone();
-            for t in 0..=len.min(15) {
-                if mask & (1 << t) != 0 {
-                    p.add_checkpoint(id, ReplayCheckpoint::from_state(&truth[t as usize]))
-                        .map_err(|e| Fail::new("C07/checkpoint-of-replayed-state-refused", format!("worldline {wl} tick {t}: {e:?}")))?;
-                }
-            }
-            for target in 0..=len {
-                // service-level replay
-                let r = p.replay_worldline_state_at(id, init, wt(target)).map_err(|e| Fail::new("C07/replay-error", format!("K={mask:#b} target {target}: {e:?}")))?;
-                if let Err(m) = same_replay_state(&r, &truth[target as usize]) {
-                    vfail!("C07/replay-depends-on-checkpoints", "worldline {wl} K={mask:#b} target {target}: {m}");
-                }
-                for start in 0..=len {
-                    let mut cur = cursor(wl, init, len);
-                    cur.seek_to(wt(start), &p, init).map_err(|e| Fail::new("C07/seek-error", format!("K={mask:#b} seek {start}: {e:?}")))?;
-                    cur.seek_to(wt(target), &p, init).map_err(|e| Fail::new("C07/seek-error", format!("K={mask:#b} seek {start}->{target}: {e:?}")))?;
-                    vensure_eq!(cur.current_tick(), wt(target), "C07/cursor-tick", "seek {start}->{target}");
-                    if let Err(m) = same_replay_state(cur.materialized_state(), &truth[target as usize]) {
-                        vfail!("C07/seek-path-dependence", "worldline {wl} K={mask:#b} seek {start}->{target}: {m}");
-                    }
-                    vensure_eq!(cur.current_state_root(), truth[target as usize].state_root(), "C07/cursor-root", "seek {start}->{target}");
-                    evals += 1;
-                    // a checkpoint strictly between cursor position and target
-                    if (start + 1..target).any(|k| mask & (1 << k) != 0) || target < start {
-                        nontrivial = true;
-                    }
-                }
-            }
-        }
-        // random cursor walk interleaved with checkpoint insertion
-        {
-            let mut p = base.clone();
-            let mut cur = cursor(wl, init, len);
-            for (op, arg) in &c.walk {
-                let pos = cur.current_tick().as_u64();
-                let t = vkit::pick_idx(*arg, (len + 1) as usize) as u64;
-                let expect = match op {
-                    0 => {
-                        cur.seek_to(wt(t), &p, init).map_err(|e| Fail::new("C07/seek-error", format!("walk seek {t}: {e:?}")))?;
-                        t
-                    }
-                    1 => {
-                        cur.mode = PlaybackMode::StepForward;
-                        cur.step(&p, init).map_err(|e| Fail::new("C07/step-error", format!("{e:?}")))?;
-                        (pos + 1).min(len)
-                    }
-                    2 => {
-                        cur.mode = PlaybackMode::StepBack;
-                        cur.step(&p, init).map_err(|e| Fail::new("C07/step-error", format!("{e:?}")))?;
-                        pos.saturating_sub(1)
-                    }
-                    3 => {
-                        cur.mode = PlaybackMode::Seek { target: wt(t), then: SeekThen::Pause };
-                        cur.step(&p, init).map_err(|e| Fail::new("C07/step-error", format!("{e:?}")))?;
-                        t
-                    }
-                    4 => {
-                        cur.mode = PlaybackMode::Play;
-                        cur.step(&p, init).map_err(|e| Fail::new("C07/step-error", format!("{e:?}")))?;
-                        (pos + 1).min(len)
-                    }
-                    _ => {
-                        p.add_checkpoint(id, ReplayCheckpoint::from_state(&truth[t as usize])).map_err(|e| Fail::new("C07/checkpoint-of-replayed-state-refused", format!("{e:?}")))?;
-                        pos
-                    }
-                };
-                vensure_eq!(cur.current_tick().as_u64(), expect, "C07/cursor-tick", "walk op {op} from {pos}");
-                if let Err(m) = same_replay_state(cur.materialized_state(), &truth[expect as usize]) {
-                    vfail!("C07/walk-path-dependence", "worldline {wl} after op {op} (arg tick {t}) from {pos}: {m}");
-                }
-                evals += 1;
-            }
-        }
-        // forks at every tick: prefix agrees with the parent, copied checkpoints included
-        for fork_tick in 0..len {
-            let mut p = w.provenance.clone(); // with the script's own checkpoints
-            let child = wl_id(7);
-            p.fork(id, wt(fork_tick), child).map_err(|e| Fail::new("C07/fork-error", format!("fork at {fork_tick}: {e:?}")))?;
-            vensure_eq!(p.len(child).unwrap_or(0), fork_tick + 1, "C07/fork-length", "fork at {fork_tick}");
-            for t in 0..=fork_tick + 1 {
-                let r = p.replay_worldline_state_at(child, init, wt(t)).map_err(|e| Fail::new("C07/fork-replay-error", format!("fork at {fork_tick} tick {t}: {e:?}")))?;
-                if state_fp(&r) != state_fp(&truth[t as usize]) {
-                    vfail!("C07/fork-prefix-differs", "fork at {fork_tick}: child tick {t} differs from the parent's");
-                }
-                let mut cur = PlaybackCursor::new(CursorId([8; 32]), child, warp_id(0), CursorRole::Reader, init, wt(fork_tick + 1));
-                cur.seek_to(wt(t), &p, init).map_err(|e| Fail::new("C07/fork-seek-error", format!("{e:?}")))?;
-                vensure!(state_fp(cur.materialized_state()) == state_fp(&truth[t as usize]), "C07/fork-prefix-differs", "cursor on fork at {fork_tick} tick {t}");
-                evals += 1;
-            }
-            vensure!(p.replay_worldline_state_at(child, init, wt(fork_tick + 2)).is_err(), "C07/fork-has-extra-history", "fork at {fork_tick}");
-        }
-        probe.class(format!("len:{}", len.min(9)));
+        check_worldline(ctx, c, &w, &base, wl, true, probe, &mut tally)?;
     }
-    probe.evals(evals);
-    if nontrivial {
+    // a fork of the live world that continues on its own: the child's replay must agree with
+    // the parent on the prefix and with its own live ledger beyond it, whatever checkpoints
+    // the fork inherited
+    if let Some((wlp, tp)) = &c.fork {
+        let parent = w.wl_of(*wlp);
+        let plen = w.len(parent);
+        if plen > 0 {
+            let f = vkit::pick_idx(*tp, plen as usize) as u64;
+            let child = w.fork_worldline(parent, f).map_err(|e| Fail::new("C07/live-fork-error", format!("fork of worldline {parent} at {f}: {e}")))?;
+            for (to_child, s) in &c.after {
+                let s2 = match (to_child, s) {
+                    (true, Step::Submit { route: _, kind, prog, salt, .. }) => Step::Submit { wl: child, route: Route::Default, kind: *kind, prog: prog.clone(), salt: *salt },
+                    (_, s) => s.clone(),
+                };
+                // `wl` picks are reduced modulo the number of worldlines, which now includes the child
+                w.apply_step(&c.hist.world, &s2);
+            }
+            w.apply_step(&c.hist.world, &Step::Pass);
+            let base2 = strip_checkpoints(&w)?;
+            let grown = w.len(child) > f + 1;
+            check_worldline(ctx, c, &w, &base2, child, false, probe, &mut tally)?;
+            check_worldline(ctx, c, &w, &base2, parent, false, probe, &mut tally)?;
+            probe.class(if grown { "live-fork:child-continued" } else { "live-fork:prefix-only" });
+            if grown && w.checkpoints[parent as usize].iter().any(|t| *t > f + 1) {
+                probe.class("live-fork:parent-checkpoint-beyond-fork-tick");
+                tally.nontrivial = true;
+            }
+        }
+    }
+    probe.evals(tally.evals);
+    if tally.nontrivial {
         probe.nontrivial();
     }
     let _ = Tier::Quick;
@@ -217,5 +280,5 @@ fn check7(ctx: &Ctx, c: &Case7, probe: &mut Probe) -> Check {
 }
 
 pub fn subs(_ctx: &Ctx) -> Vec<Box<dyn Sub>> {
-    vec![prop_sub("seek-paths-checkpoint-subsets-forks", 1200, 30_000, case7(), check7)]
+    vec![crate::svcops::sub(), prop_sub("seek-paths-checkpoint-subsets-forks", 1200, 30_000, case7(), check7)]
 }
